@@ -27,7 +27,7 @@ SUBS = {
 TIERS = {
     # runs per sub-campaign, chunk size, wall cap for the run phase (s)
     'smoke': {'runs': {'light-faultfree': 300, 'light-faulty': 300, 'heavy-faultfree': 48, 'heavy-faulty': 48}, 'chunk': {'light': 50, 'heavy': 12}, 'cap_s': 120, 'det_seeds': 4},
-    'quick': {'runs': {'light-faultfree': 5000, 'light-faulty': 7000, 'heavy-faultfree': 700, 'heavy-faulty': 1100}, 'chunk': {'light': 250, 'heavy': 50}, 'cap_s': 150, 'det_seeds': 16},
+    'quick': {'runs': {'light-faultfree': 4500, 'light-faulty': 6500, 'heavy-faultfree': 500, 'heavy-faulty': 900}, 'chunk': {'light': 250, 'heavy': 50}, 'cap_s': 150, 'det_seeds': 16},
     'thorough': {'runs': {'light-faultfree': 120000, 'light-faulty': 180000, 'heavy-faultfree': 14000, 'heavy-faulty': 22000}, 'chunk': {'light': 1000, 'heavy': 100}, 'cap_s': 1500, 'det_seeds': 64},
 }
 
